@@ -34,7 +34,8 @@ try:
         r = subprocess.run(["patch", "-p1", "-d", dst, "-i", os.path.abspath(a.patch)], capture_output=True, text=True)
         if r.returncode != 0:
             print("MUTEST: patch failed", r.stdout, r.stderr); sys.exit(9)
-    env = dict(os.environ, VERIF_REPO=dst, VERIF_STRICT_UNDECIDED=os.environ.get("VERIF_STRICT_UNDECIDED", "1"))
+    env = dict(os.environ, VERIF_REPO=dst, VERIF_STRICT_UNDECIDED=os.environ.get("VERIF_STRICT_UNDECIDED", "1"),
+               VERIF_EVIDENCE_DIR=os.path.join(os.path.dirname(dst.rstrip("/")), "evidence_mutant"))
     r = subprocess.run([os.path.join(os.path.dirname(os.path.abspath(__file__)), "..", "check"), a.pid, "--tier", a.tier],
                        env=env, capture_output=True, text=True)
     print(r.stdout[-3000:])
